@@ -115,6 +115,11 @@ def run(rep):
         else:
             give = []
         kw = {k: full[k] for k in give}
+        if rng.random() < 0.06:
+            # where Python's arithmetic raises instead of returning: vanishing denominators, negative W²
+            kw = rng.choice([dict(W=0.0, Q2=Mp2), dict(xB=0.0, Q2=Q2), dict(xB=1.0, W=W), dict(xB=2.0), dict(xB=2.0, Q2=1.0),
+                             dict(xB=2.0, Q2=Q2 + 2.0), dict(xB=1.0 + xB, Q2=Q2 + 4.0), dict(xB=1.0, Q2=Q2), dict(xB=2.0, W=W)])
+            rep.hist('fill.edge', '+'.join('%s=%g' % kv for kv in sorted(kw.items()))[:24])
         r = rng.random()
         if r < 0.4:
             kw['t'] = t
@@ -137,6 +142,10 @@ def run(rep):
             impl = 'KinematicsError'
         except AssertionError:
             impl = 'AssertionError'
+        except ZeroDivisionError:
+            impl = 'ZeroDivisionError'
+        except ValueError:
+            impl = 'ValueError'
         except Exception as e:
             impl = 'EXC:' + type(e).__name__
         lines.append('c13.fill %s %s' % (f2hex(Mp2), ' '.join(H(kw.get(k)) for k in ('xB', 'W', 'Q2', 't', 'tm'))))
@@ -149,8 +158,13 @@ def run(rep):
     for frame in ('Trento', 'BMK', None):
         for pb in (False, True):
             for ang in [('phi', u) for u in ('deg', 'degrees', 'rad', 'radian')] + [('FTn', n) for n in range(-3, 4)] + [(None, None)]:
-                for var in [('varFTn', 1), ('varFTn', -1), ('varFTn', 2), ('varphi', None), (None, None)]:
+                for var in [('varFTn', 1), ('varFTn', -1), ('varFTn', 2), ('varphi', None), (None, None),
+                            ('varphi+varFTn', -1), ('varphi+varFTn', 1)]:
+                    # varphi together with varFTn: what a transversely polarised point read from a file with a
+                    # varphi column carries (update_from_grid fills in varFTn = -1 by default)
                     grid.append((frame, pb, ang, var))
+                    if ang[0] == 'phi' and ang[1] in ('deg', 'rad') and var[0] in ('varFTn', None):
+                        grid.append((frame, pb, ('phi+FTn', ang[1]), var))     # an angle together with a harmonic index
     reps = 1 if quick else 12
     for frame, pb, ang, var in grid * reps:
         names = rng.sample(ERRTYPES, rng.randint(0, 6))
@@ -158,7 +172,9 @@ def run(rep):
         spec = dict(frame=frame, pb=pb, val=rng.uniform(-50, 50) * 10 ** rng.randint(-3, 3),
                     errnames=names, errs=[rng.uniform(0, 5) for _ in names],
                     phi=None, phiunit='rad', FTn=None, varphi=None, varFTn=None)
-        if ang[0] == 'phi':
+        if ang[0] in ('phi', 'phi+FTn'):
+            if ang[0] == 'phi+FTn':
+                spec['FTn'] = rng.choice([-2, -1, 0, 1, 3])
             spec['phiunit'] = ang[1]
             # a fifth of the angles at the special values (180 deg in the Trento frame is 0.0 internally: falsy in Python)
             if rng.random() < 0.2:
@@ -170,7 +186,9 @@ def run(rep):
             spec['FTn'] = ang[1]
         if var[0] == 'varFTn':
             spec['varFTn'] = var[1]
-        elif var[0] == 'varphi':
+        elif var[0] in ('varphi', 'varphi+varFTn'):
+            if var[0] == 'varphi+varFTn':
+                spec['varFTn'] = var[1]
             spec['varphi'] = rng.choice([0.0, math.pi / 2, math.pi]) if rng.random() < 0.2 else rng.uniform(0, 2 * math.pi)
         specs.append(spec)
     for spec in specs:
@@ -192,7 +210,7 @@ def run(rep):
         meta.append(dict(kind='toconv', spec=spec, impl=st1, nerr=nerr))
         rep.hist('conv.frame', spec['frame'])
         rep.hist('conv.angle', 'phi-' + spec['phiunit'] if spec['phi'] is not None else 'FTn=%s' % spec['FTn'])
-        rep.hist('conv.var', 'varphi' if spec['varphi'] is not None else 'varFTn=%s' % spec['varFTn'])
+        rep.hist('conv.var', ('varphi' + ('+varFTn' if spec['varFTn'] is not None else '')) if spec['varphi'] is not None else 'varFTn=%s' % spec['varFTn'])
         if isinstance(st1, str):
             continue
         # from_conventions on the converted point, and the round trip on the real code
@@ -384,14 +402,13 @@ def run(rep):
             if not isinstance(impl, str) and not isinstance(model, str) and close(impl, model, 4):
                 continue
             # property oracle: the same map that from_conventions applies to the value
-            wf = (s['phi'] is None or s['FTn'] is None) and (s['varphi'] is None or s['varFTn'] is None)
             p3 = mk_point(g, s)
             found = False
             try:
                 p3.to_conventions()
                 p3.val = m['pred']
                 p3.from_conventions()
-                found = wf and (isinstance(impl, str) or not close(impl, p3.val, 4))
+                found = isinstance(impl, str) or not close(impl, p3.val, 4)
             except Exception:
                 pass
             rep.violation('orig/frame=%s/FTn=%s/varFTn=%s/pb=%s' % (s['frame'], s['FTn'], s['varFTn'], s['pb']),
